@@ -466,6 +466,8 @@ func (a *AndExpr) String() string {
 
 // NullableVisit recursively determines whether an object is nullable.
 func (a *AndExpr) NullableVisit(rules map[string]*Rule) bool {
+	// visited for its side effect, see InitialNames
+	a.Expr.NullableVisit(rules)
 	return true
 }
 
@@ -476,7 +478,8 @@ func (a *AndExpr) IsNullable() bool {
 
 // InitialNames returns names of nodes with which an expression can begin.
 func (a *AndExpr) InitialNames() map[string]struct{} {
-	return make(map[string]struct{})
+	// the operand of a predicate is evaluated at the current position
+	return a.Expr.InitialNames()
 }
 
 // NotExpr is a zero-length matcher that is considered a match if the
@@ -503,6 +506,8 @@ func (n *NotExpr) String() string {
 
 // NullableVisit recursively determines whether an object is nullable.
 func (n *NotExpr) NullableVisit(rules map[string]*Rule) bool {
+	// visited for its side effect, see InitialNames
+	n.Expr.NullableVisit(rules)
 	return true
 }
 
@@ -513,7 +518,8 @@ func (n *NotExpr) IsNullable() bool {
 
 // InitialNames returns names of nodes with which an expression can begin.
 func (n *NotExpr) InitialNames() map[string]struct{} {
-	return make(map[string]struct{})
+	// the operand of a predicate is evaluated at the current position
+	return n.Expr.InitialNames()
 }
 
 // ZeroOrOneExpr is an expression that can be matched zero or one time.
